@@ -331,7 +331,10 @@ def fsm_inv(g, f):
 def _loop_ghost(ex, st):
     ghost_init(ex, st)
     st.ghost['millis_bits'] = 64
-    st.pc.append(st.ghost['now'] < (1 << 62))
+    # x86-64: unsigned long is 64 bits, true time below 2^62 ms never wraps.  16-bit target: unsigned long is 32 bits; the sync
+    # machine is verified there for true time below 2^32 ms (uptime under 49.7 days) -- wrap-around of the 32-bit counter inside
+    # the sync machine is NOT covered by the AVR pass
+    st.pc.append(st.ghost['now'] < ((1 << 62) if ex.pbits == 64 else (1 << 32)))
 
 
 def _loop_pre(c):
